@@ -98,6 +98,25 @@ def KeyPair.gen (n : Nat) (s : Stream F G1 G2) : Option (KeyPair F G1 G2 × Stre
       | none => none
       | some (pk, s) => some (⟨sk, pk⟩, s)
 
+/-- `PedersenParameters::<G1Projective, N>::new(rng)`: `h`, then `N` generators, all through
+`random_non_identity`. -/
+def PedParams.gen1 (n : Nat) (s : Stream F G1 G2) : Option (PedParams G1 × Stream F G1 G2) :=
+  match nonIdG1 s with
+  | none => none
+  | some (h, s) =>
+    match nonIdG1s n s with
+    | none => none
+    | some (gs, s) => some (⟨h, gs⟩, s)
+
+/-- `PedersenParameters::<G2Projective, N>::new(rng)`. -/
+def PedParams.gen2 (n : Nat) (s : Stream F G1 G2) : Option (PedParams G2 × Stream F G1 G2) :=
+  match nonIdG2 s with
+  | none => none
+  | some (h, s) =>
+    match nonIdG2s n s with
+    | none => none
+    | some (gs, s) => some (⟨h, gs⟩, s)
+
 end keygen
 
 section sign
